@@ -18,10 +18,17 @@ var commonAssumptions = []string{
 
 var propSpecs = []PropSpec{
 	{
-		ID:    "C01",
-		Rules: []string{"C01.NIL", "C01.EXH", "C01.TA", "C01.NILMAP", "C01.PIPE", "C01.EXIT", "C01.UNSAFE"},
+		ID:          "C01",
+		Rules:       []string{"C01.NIL", "C01.EXH", "C01.TA", "C01.NILMAP", "C01.PIPE", "C01.EXIT", "C01.UNSAFE"},
 		Explanation: "Decides necessary conditions for crash freedom in actionlint's own code: no use of a value on a path where the code itself tested it to be nil (C01.NIL).",
 		NotDecided:  "panics or hangs inside third-party libraries; stack exhaustion; general index/slice bounds; wall-clock bounds",
+		Assumptions: commonAssumptions,
+	},
+	{
+		ID:          "C02",
+		Rules:       []string{"C02.MAP"},
+		Explanation: "Decides that no hash-map iteration order can reach message text, the relative order of diagnostics that tie on (file,line,col), outer state, output or returned values (C02.MAP).",
+		NotDecided:  "that distinct AST nodes really have distinct positions; determinism of third-party libraries",
 		Assumptions: commonAssumptions,
 	},
 }
